@@ -308,7 +308,7 @@ BLOCK_LEVEL = re.compile(r"^(BLOCK_|TABLE_ROW$|TABLE_CELL$|DOC_START_TOKEN$)")
 
 def stack_usage(config_flags=(), opt="-O2", cc="gcc"):
     """function name -> (bytes, qualifier) from -fstack-usage (compile only)."""
-    work = os.path.join(compdb.WORK, "su")
+    work = os.path.join(os.environ.get("MMD_CACHE") or compdb.WORK, "su")
     os.makedirs(work, exist_ok=True)
     units = [u for u in compdb.src_units() if os.path.basename(u) not in ("argtable3.c",)]
     flags = [f for f in compdb.base_flags() if not f.startswith("-O")] + [opt] + list(config_flags)
